@@ -95,11 +95,22 @@ func buildKindTables(prog *Program, a *Anchors) *kindTables {
 		ps.Seed = func(st *pstate) { st.eqc[pk.Key()] = kindConst(kk).Key() }
 		ps.Inline = func(c *ssa.Function) bool { return prog.InModule(c) }
 		sums := ps.Run(a.EqTable)
-		if len(sums) != 1 || len(sums[0].Results) != 1 {
+		if len(sums) != 1 || len(sums[0].Results) < 1 || len(sums[0].Results) > 2 {
 			kt.problems = append(kt.problems, fmt.Sprintf("equality table: %d paths for kind %s", len(sums), kindNames[k]))
 			continue
 		}
 		res := sums[0].Results[0]
+		if len(sums[0].Results) == 2 {
+			// (comparator, ok): no comparator when ok is false — and ok must say what the comparator says
+			okV, known := sums[0].Results[1].BoolConst()
+			if !known {
+				okV, known = evalBool(sums[0].St, sums[0].Results[1])
+			}
+			if !known || okV == res.IsNil() {
+				kt.problems = append(kt.problems, "equality table: for kind "+kindNames[k]+" the flag returned with the comparator does not tell whether there is one")
+				continue
+			}
+		}
 		switch {
 		case res.IsNil():
 			kt.eq[k] = nil
@@ -644,7 +655,11 @@ func (c *c09ctx) analyseFunc(fn *ssa.Function) {
 				}
 			}
 			// comparator call?
-			if callee, call := calleeOfSym(fs); callee == c.a.EqTable && call != nil {
+			tableSym := fs
+			if fs != nil && fs.K == sRes && fs.Idx == 0 && fs.A != nil {
+				tableSym = fs.A // the comparator of (comparator, ok)
+			}
+			if callee, call := calleeOfSym(tableSym); callee == c.a.EqTable && call != nil {
 				ok, why := c.comparatorCallOK(st, ev, call)
 				if !nonnil {
 					ok, why = false, "the comparator returned by the equality table is called without a nil test"
@@ -1274,7 +1289,11 @@ func (c *c09ctx) globalTypeOf(g *ssa.Global) types.Type {
 
 // comparatorCallOK: eqFn(mv, v) with eqFn = EqTable(k): mv coerced for the same k, v of kind k.
 func (c *c09ctx) comparatorCallOK(st *pstate, ev *Event, tableCall *ssa.Call) (bool, string) {
-	targs := symArgs(st, ev.FnSym)
+	tsym := ev.FnSym
+	if tsym != nil && tsym.K == sRes && tsym.Idx == 0 && tsym.A != nil {
+		tsym = tsym.A
+	}
+	targs := symArgs(st, tsym)
 	if len(targs) != 1 || len(ev.Args) != 2 {
 		return false, "unexpected comparator call shape"
 	}
